@@ -1,10 +1,34 @@
-//! C16 - (to be written)
-
+//! C16 - smoke
+use crate::ctx::*;
 use pvc_engine::Run;
 use serde_json::Value;
+use pvc_common::FFT64Ref;
+use poulpy_ckks::layouts::*;
+use poulpy_ckks::leveled::*;
+use poulpy_ckks::{CKKSInfos, CKKSMeta};
+use poulpy_core::EncryptionLayout;
+use poulpy_core::layouts::LWEInfos;
+use poulpy_hal::source::Source;
+use pvc_common::Bk;
 
 pub fn run(_run: &mut Run) {
-    panic!("C16: not implemented yet");
+    let p = Params { name: "t".into(), n: 16, base2k: 19, k_max: 152, dsize: 1, hw: 8,
+        starts: vec![Start{log_delta:30,k:152}], pt_precs: vec![(30,10)], rot_keys: vec![1,3] };
+    let c = Ctx::<FFT64Ref, f64>::new(&p, 0);
+    println!("scratch {}", c.scratch_bytes);
+    let mut s = FFT64Ref::scratch(c.scratch_bytes);
+    let mut ct = c.blank(8, 0);
+    let enc_infos = EncryptionLayout::new_from_default_sigma(p.glwe_layout(152)).unwrap();
+    let mut xa = Source::new([1u8;32]); let mut xe = Source::new([2u8;32]);
+    c.module.ckks_encrypt_sk(&mut ct, &c.vec_znx[0][0], &c.sk, &enc_infos, &mut xa, &mut xe, FFT64Ref::borrow(&mut s)).unwrap();
+    println!("meta {:?} size {}", ct.meta(), ct.size());
+    let mut pt = CKKSPlaintextVecZnx::alloc(16u32.into(), 19u32.into(), CKKSMeta{log_delta:30, log_budget: 8});
+    c.module.ckks_decrypt(&mut pt, &ct, &c.sk, FFT64Ref::borrow(&mut s)).unwrap();
+    let mut r = CKKSPlaintextVecRnx::<f64>::alloc(16).unwrap();
+    r.decode_from_znx(&pt).unwrap();
+    let mut re = vec![0.0;8]; let mut im = vec![0.0;8];
+    c.enc.decode_reim(&r, &mut re, &mut im).unwrap();
+    for j in 0..8 { println!("{j}: got ({:.9},{:.9}) want ({:.9},{:.9})", re[j], im[j], c.vecs[0][j].0, c.vecs[0][j].1); }
 }
 
 pub fn replay(_run: &mut Run, _d: &Value) {
